@@ -37,7 +37,7 @@ DRIVER = "vf.props.c14_events"
 
 EVENT_NAMES = [
     "tr_s1", "tr_s2", "tr_s3",
-    "opt_reshape2", "opt_reshape_az", "opt_padconv", "opt_matreshape", "opt_nearmiss", "opt_mixed",
+    "opt_reshape2", "opt_reshape_az", "opt_fold_o11", "opt_fold_o18", "opt_padconv", "opt_matreshape", "opt_nearmiss", "opt_mixed",
     "rw_checkraises", "rw_patternraises", "rw_alt", "rw_rms", "fold_reuse", "convert",
     "eager_raise", "use_persist", "proto_repeat", "glob_mut", "use_g",
 ]
